@@ -22,9 +22,11 @@ import PercevalModel.Model.C12Solve
     `{"res":[q…]}` or `{"none":true}`: the model of `solve.py: solve` (`Model/C12Solve.lean`) on the function
     `f(x) = |b + Σ aᵢ·xᵢ|` over ℚ (exact), the numerical minimiser being the oracle that returns `opt` (the point the
     real minimiser was observed to return; it is not consulted when every parameter is imposed).  Exact replies.
-  * `{"op":"leave","m":N,"U":rows,"prec":"p/q","ignore":b}` → `{"zeroed":[[n,j],…]}`: the entries of the array
-    shared by all attempts of the retry loop that one attempt started on `U` changes (`inPlace`: `u[n,j] = 0` of the
-    leading identity skips; every other entry is left as it is).
+  * `{"op":"leave","m":N,"U":rows,"prec":"p/q","ignore":b}` → `{"zeroed":[[n,j],…],"other":[…]}`: the entries of the
+    array shared by all attempts of the retry loop that one attempt of the PINNED code started on `U` changed
+    (`inPlace`: `u[n,j] = 0` of the leading identity skips; every other entry is left as it is).  The main model
+    (repaired code, `decompositionRetry`) leaves the array untouched; this op names the shape on which the pinned code
+    wrote into its caller's matrix and recognises that behaviour when a tree still has it.
   Numbers in replies of `prod`/`fold` are rounded down to multiples of 2⁻¹⁰⁰ (the harness compares with 1e-9).
 -/
 
